@@ -209,6 +209,7 @@ class BuildResult:
         self.failed_theorems: list[str] = []
         self.log = ""
         self.regen: dict = {}
+        self.regen_others: dict = {}
         self.wall = 0.0
 
 
@@ -249,7 +250,28 @@ def regen_ops_index():
     write_if_changed(LEAN / "Driver" / "Ops.lean", src)
 
 
-def lake_build(targets: list[str], regen=None) -> BuildResult:
+def regen_all_others(own) -> dict:
+    """call the `regen` of every other property module (as harness/regen_all.py does); returns {module: error} for failures"""
+    import importlib
+    failed = {}
+    done = {own}
+    pd = VERIF / "harness" / "props"
+    if str(pd) not in sys.path:
+        sys.path.insert(0, str(pd))
+    for p in sorted(pd.glob("C*.py")):
+        try:
+            mod = sys.modules.get(p.stem) or importlib.import_module(p.stem)
+            fn = getattr(mod, "regen", None)
+            if fn is None or fn in done or (getattr(fn, "__module__", None) == getattr(own, "__module__", None)):
+                continue
+            done.add(fn)
+            fn()
+        except Exception as e:  # noqa
+            failed[p.stem] = f"{type(e).__name__}: {str(e)[:160]}"
+    return failed
+
+
+def lake_build(targets: list[str], regen=None, full=False) -> BuildResult:
     """Regenerate Gen/* from /repo, then `lake build` the given targets under a lock."""
     res = BuildResult()
     t0 = time.time()
@@ -258,7 +280,15 @@ def lake_build(targets: list[str], regen=None) -> BuildResult:
     try:
         regen_ops_index()
         regen_error = None
+        if full and regen is None:
+            res.regen_others = regen_all_others(None)
+            regen_ops_index()
         if regen is not None:
+            # Every generated module is rewritten from the tree this run checks, not only this property's own: property
+            # modules import each other (C07 builds C18, which imports C04 …), and a run against another tree may have left
+            # its generated files behind.  A failure of ANOTHER property's regeneration leaves that property's last good
+            # files in place and is only noted; a failure of this property's own regeneration is a broken tie.
+            res.regen_others = regen_all_others(regen)
             try:
                 res.regen = regen()
             except Exception as e:  # noqa
@@ -501,7 +531,7 @@ def _run(prop, module, ctx: Ctx, t0, ev_path: Path) -> int:
     extra_targets = list(getattr(module, "EXTRA_TARGETS", []))
     targets = [f"NssVerif.Props.{prop}", *extra_targets, "nssdriver"]
     regen = getattr(module, "regen", None)
-    br = lake_build(targets, regen)
+    br = lake_build(targets, regen, full=True)
     broken: list[str] = []  # names of theorems / correspondences that no longer check
     driver_ok = True
     if not br.ok:
@@ -617,6 +647,7 @@ def _run(prop, module, ctx: Ctx, t0, ev_path: Path) -> int:
         "known_findings_seen": [k["id"] for k, _ in known_hit],
         "build_s": round(br.wall, 2),
         "regenerated": br.regen,
+        "regeneration_of_other_properties_failed": br.regen_others,
         "leanchecker": leanchecker,
         "notes": ctx.notes,
         **ctx.extra,
